@@ -1109,7 +1109,7 @@ func randModOp(rng *rand.Rand, kind string) mfOp {
 		if rng.Intn(8) == 0 {
 			lo = "v1.0"
 		}
-		return op("AddRetract", lo, hi, pick("", "newwhy", "two\nlines"))
+		return op("AddRetract", lo, hi, pick("", "newwhy", "two\nlines", "para one\n\npara two"))
 	case 17:
 		lo := pick("v1.0.0", "v1.1.0")
 		return op("DropRetract", lo, pick(lo, "v1.1.0"))
